@@ -53,7 +53,7 @@ def drive(seed, nops=16):
             k = rnd.randrange(len(frames))
             fr, sc = frames[k]
             op = rnd.choice(["chi2", "gauss", "trunc", "obs", "obs_user", "zero", "signal", "signal", "const", "snr", "snr", "slice",
-                             "dedrift", "integrate", "copy", "pickle", "bad_noise", "bad_signal", "save_load", "save_load", "pickle_file", "get_waterfall", "rewrap"])
+                             "dedrift", "integrate", "copy", "pickle", "bad_noise", "bad_signal", "save_load", "save_load", "pickle_file", "get_waterfall", "rewrap", "meta", "meta", "dedrift_meta", "family_meta"])
             try:
                 if op == "chi2":
                     fr.add_noise(x_mean=rnd.choice([1, 10, 25.5]) * sc, noise_type="chi2")
@@ -113,6 +113,21 @@ def drive(seed, nops=16):
                     frames.append((rf.copy_event(rec, fr, lambda: copy.deepcopy(fr), "deepcopy") if rnd.random() < 0.5 else fr.copy(), sc))
                 elif op == "pickle":
                     frames.append((rf.copy_event(rec, fr, lambda: pickle.loads(pickle.dumps(fr)), "pickle"), sc))
+                elif op == "meta":
+                    if rnd.random() < 0.7:
+                        fr.add_metadata({"drift_rate": rnd.choice([0.0, 0.3, -0.3, 1.0]) * fr.unit_drift_rate})
+                    else:
+                        fr.update_metadata({"observer": "verif", "drift_rate": rnd.choice([0.0, 0.5]) * fr.unit_drift_rate})
+                elif op == "dedrift_meta":
+                    frames.append((stg.dedrift(fr), sc))          # rate from the frame's own metadata (KeyError without one)
+                elif op == "family_meta":
+                    # bookkeeping of a parent and of a frame derived from it, written alternately, then the rate read back
+                    fr.add_metadata({"drift_rate": rnd.choice([0.3, -0.3]) * fr.unit_drift_rate})
+                    child = fr.get_slice(1, fr.fchans - 1) if rnd.random() < 0.5 else stg.dedrift(fr)
+                    frames.append((child, sc))
+                    who = child if rnd.random() < 0.6 else fr
+                    who.add_metadata({"drift_rate": rnd.choice([0.0, 0.6]) * fr.unit_drift_rate})
+                    frames.append((stg.dedrift(fr if who is child else child), sc))
                 elif op == "rewrap":
                     # a second frame built from the first one's pixel array: the constructor copies, so the two stay independent
                     frames.append((stg.Frame.from_data(fr.df, fr.dt, fr.fch1, fr.ascending, fr.data, seed=rnd.randrange(1 << 30)), sc))
